@@ -8,5 +8,5 @@ Extraction "Model.ml"
   for_each iterate3 iterate2 rangefor3 rangefor2 preinc3 preinc2 seq3_begin seq3_end seq2_begin seq2_end
   multidim_index_iterator3_current__ multidim_index_iterator2_current__
   actual_new actual_clear actual_set actual_get actual_indexOf actual_num ac_cells ac_dims as_arr
-  shifted subbox accessor multislice value_range value_range_old a_dims a_get a_num v3z v2z t3 t2
+  shifted subbox accessor multislice repeater value_range value_range_old a_dims a_get a_num v3z v2z t3 t2
   Z.add Z.mul Z.opp Z.div Z.modulo Z.of_nat Z.to_nat N.of_nat.
